@@ -10,8 +10,8 @@ Ltac zgoal :=
   match goal with |- ?a mod ?q = ?b mod ?q => change (eqm q a b) end;
   repeat setoid_rewrite (Zmod_eqm _);
   apply (f_equal2 Z.modulo); [ring | reflexivity].
-Ltac eg_unfold := unfold eg_decrypt, eg_enc, eg_sk_enc, eg_op, eg_representative, eg_noise, eg_sk_noise,
-                    eg_scale, eg_inv, eg_shift, eg_rerandomise, eg_sk_rerandomise, eg_public; cbn [fst snd].
+Ltac eg_unfold := unfold eg_decrypt, eg_shift, eg_rerandomise, eg_sk_rerandomise, eg_sk_enc, eg_enc, eg_inv,
+                    eg_scale, eg_op, eg_representative, eg_noise, eg_sk_noise, eg_public; cbn [fst snd].
 Ltac eg_solve := eg_unfold; first [ apply f_equal2; zgoal | zgoal ].
 
 (* the secret-key fast path of IdentityNoise / Encrypt / ReRandomise is the public one *)
